@@ -18,6 +18,11 @@ SPEC = {
              "differ in exactly one field (every Global field; input sequence / required lock times / value / prevout / sighash type; output "
              "value; shielded nullifiers), present-vs-present and absent-vs-present, go through every Combiner order: copies implying "
              "different txids must never combine, a successful combination must imply the inputs' txid. "
+             "Growth pairs: the creation-stage PCZT (longer copy) against the same PCZT minus its last input / output / spend / action "
+             "(shorter copy), each with its modifiable flag set or cleared through the value tree, for all four bundles, in every order and "
+             "grouping: accepted iff the shorter copy is modifiable, same verdict and same result in every order. One shard also round-trips "
+             "36 hand-made PCZTs whose Sapling / Orchard / Ironwood bundle is canonically empty except for ONE field (bsk, anchor, value_sum, "
+             "flags, note_version, zkproof; v5 and v6) incl. v1->v2->v1 / v2->v1->v2 byte stability and the effects verdict across a cycle. "
              "After every role application the PCZT is serialised/parsed/compared and its implied txid compared "
              "with the one at creation. Distinct = distinct (request shape incl. epoch, version, pools, counts, paddings; builder kind; "
              "real/mock proofs); all cases are non-trivial (each yields hundreds of role/encoding/combination verdicts, counted "
@@ -27,6 +32,8 @@ SPEC = {
         "ciborium::Value (dependency crate) as the generic value tree of the pub serde type pczt::v2::Pczt; the union / diff / v1-representability oracles work on that tree only",
         "v1-representability rule written from the v1 layout: tx version != 6, Ironwood bundle canonically empty, Orchard note version 2, no absent Orchard anchor/cv_net/cmx on a bundle with actions, no memo-plaintext ciphertexts, no absent Sapling anchor on a bundle with spends",
         "tx_modifiable merges bitwise as documented on pczt::common::Global (bits 0,1,7 towards 0; bit 2 towards 1)",
+        "a copy may be extended by a merge only if its own modifiable flag (inputs / outputs / shielded) is set, as documented on Global::tx_modifiable and in the bundle merges: with copies of different length the expected verdict is Ok iff every shorter copy is modifiable",
+        "the value-tree view is produced by the v2 encoder and cannot see what that encoder elides; such losses are caught by the Debug-rendering comparison, which names the first differing field",
         "absence of a field with a documented default is that default (fallback_lock_time 0, sequence 0xFFFFFFFF, no required lock time): two copies conflict when the txids they imply differ even if the field-wise union finds no two different values",
         "txid: zcash_primitives TxIdDigester/to_txid over into_effects() (digest correctness is C04's subject); extraction with real proofs verifies proofs and signatures with the dependency crates",
         "IoFinalizer, Signer and Prover draw from OsRng inside the library: runs are reproducible in structure, not in signature/proof bytes",
@@ -63,6 +70,13 @@ SPEC = {
             "combine_conflicts_by_implied_txid_only": 180, "combine_result_txid_checked": 150,
             "memo_compactions": 250, "memo_compaction_resolved_back": 250, "memo_compaction_next_role_ok": 120,
             "memo_plaintext_len:0": 200, "memo_plaintext_len:1": 60, "memo_plaintext_len:511": 30, "memo_plaintext_len:512": 100,
+            "growth_pairs": 500, "growth_verdicts": 4000, "growth_expected_ok": 250, "growth_expected_refusal": 250,
+            "growth_results_compared": 2000,
+            "growth_pair:transparent.inputs": 60, "growth_pair:transparent.outputs": 90, "growth_pair:sapling.spends": 30,
+            "growth_pair:sapling.outputs": 50, "growth_pair:orchard.actions": 150, "growth_pair:ironwood.actions": 40,
+            "empty_bundle_field_probes": 36, "empty_bundle_probe:sapling.bsk": 4, "empty_bundle_probe:orchard.bsk": 4,
+            "empty_bundle_probe:ironwood.bsk": 4, "empty_bundle_probe:ironwood.zkproof": 2, "empty_bundle_probe:orchard.note_version": 2,
+            "probe_effects_verdict_stable": 36, "v1_v2_v1_bytes_stable": 6, "v2_v1_v2_bytes_stable": 4,
         },
         "thorough": {
             "evaluations": 2500, "distinct_nontrivial": 2000,
@@ -76,6 +90,8 @@ SPEC = {
             "foreign_constructor:required-time-lock": 120, "foreign_constructor:fallback-absent": 150,
             "field_pair_cases": 12000, "field_pair_absent_vs_present": 6000, "combine_conflicts_by_implied_txid_only": 3000,
             "memo_compactions": 5000, "memo_plaintext_len:511": 600, "memo_plaintext_len:512": 2000,
+            "growth_pairs": 15000, "growth_verdicts": 120000, "growth_pair:ironwood.actions": 1200, "growth_pair:sapling.spends": 900,
+            "empty_bundle_field_probes": 36, "probe_effects_verdict_stable": 36,
         },
     },
     "manifest": {
